@@ -474,6 +474,9 @@ func (s *Sim) DirectedLockedMelt(success, poll bool) {
 	if st, _ := s.Melt(q, in, Proofs(in), lnmodel.PayPlan{Answer: lnmodel.APending, Truth: lnmodel.InFlight}, ""); st != "PENDING" {
 		return
 	}
+	// an impatient client sends the melt request again while the payment is in flight: refused, and it
+	// must not keep the mint from looking at the payment afterwards
+	s.Melt(q, in, Proofs(in), lnmodel.PayPlan{Answer: lnmodel.ASucceeded}, "")
 	s.W.Resolve(s.E.Name, q.Hash, success)
 	s.logf("ln-resolve %s success=%v (directed)", q.Id[:8], success)
 	s.done("ln-resolve")
